@@ -188,6 +188,19 @@ Theorem C18_slice_default_refuted : exists st1 ns o1 st2 ng o2,
 Proof. exact w_slice_default. Qed.
 Print Assumptions C18_slice_default_refuted.
 
+(* composite cache (S5, property C05) seen through injection: after one successful pull in a Workflow,
+   with no child added since, a second pull is a cache hit of the Workflow itself and runs NOTHING
+   upstream; +(-i), written before i had data, never gets its input although python gives -1
+   (known finding C18-parent-cache-skips-pull). *)
+Theorem C18_pull_cache_refuted : exists st1 a o1 st2 b o2 st3 c o3 st4 v st5,
+  w_inject w_st0 (@mkQ tval CNegative w_i [] true) = (st1, a, o1) /\
+  w_inject st1 (@mkQ tval CPositive (CN a) [] true) = (st2, b, o2) /\
+  w_inject st2 (@mkQ tval CNegative w_x [] true) = (st3, c, o3) /\
+  w_pull st3 c = (st4, PVal v) /\ w_pull st4 b = (st5, PUp) /\
+  w_pyop PNeg ["int:1"] = inl "int:-1" /\ w_pyop PPos ["int:-1"] = inl "int:-1".
+Proof. exact w_pull_cache. Qed.
+Print Assumptions C18_pull_cache_refuted.
+
 (* ---- non-vacuity: the hypotheses of the guarded theorems are met by a non-trivial history
    (raw operand, channel operand, nested expression (x + 1) * 4 = 8, repetition) ------------------------- *)
 Example C18_hyps_hold :
